@@ -1,6 +1,7 @@
 package main
 
 import (
+	"regexp"
 	"sort"
 	"bytes"
 	"context"
@@ -172,14 +173,29 @@ func solveOne(o *Obl, file string, timeout int, tier string) {
 
 // trySplit retries an undecided obligation conjunct by conjunct (see split.go).
 func trySplit(o *Obl, file string, timeout int) {
-	parts := splitGoal(o.Goal)
-	if len(parts) < 2 || len(parts) > 40 {
+	decls, sk := skolemizeGoal(o.Goal)
+	if decls == nil {
+		decls = []string{}
+	}
+	parts := splitGoal(sk)
+	if len(parts) > 60 {
+		return
+	}
+	if len(parts) < 2 {
+		// nothing to split conjunct-wise: go straight to the case analysis over control-flow merges
+		po := *o
+		po.Goal = sk
+		po.SkDecls = decls
+		if tryCases(&po, file, timeout, o) {
+			o.Result, o.Solver = "unsat", "cases"
+		}
 		return
 	}
 	used := map[string]bool{}
 	for i, g := range parts {
 		po := *o
 		po.Goal = g
+		po.SkDecls = decls
 		pf := fmt.Sprintf("%s.part%d.smt2", strings.TrimSuffix(file, ".smt2"), i+1)
 		renderMu.Lock()
 		txt := po.script(true)
@@ -199,6 +215,10 @@ func trySplit(o *Obl, file string, timeout int) {
 				return
 			}
 		}
+		if !done && tryCases(&po, pf, timeout, o) {
+			used["cases"] = true
+			done = true
+		}
 		if !done {
 			return
 		}
@@ -209,6 +229,79 @@ func trySplit(o *Obl, file string, timeout int) {
 	}
 	sort.Strings(names)
 	o.Result, o.Solver = "unsat", fmt.Sprintf("split(%d):%s", len(parts), strings.Join(names, "+"))
+}
+
+var mergeDefRe = regexp.MustCompile(`^\(= (g![0-9]+) \(or (.*)\)\)$`)
+
+// tryCases retries an undecided part by case analysis over a control-flow merge: for a merge guard g = (or e1 .. en)
+// defined before the obligation, the part holds if the guard's cases cover the antecedent and the part holds under
+// each case. The most recent merges are tried first.
+func tryCases(po *Obl, file string, timeout int, acct *Obl) bool {
+	vc := po.vc
+	if vc == nil {
+		return false
+	}
+	type merge struct{ cases []string }
+	var ms []merge
+	for i := po.Prefix - 1; i >= 0 && len(ms) < 4; i-- {
+		m := mergeDefRe.FindStringSubmatch(vc.asserts[i])
+		if m == nil {
+			continue
+		}
+		t := parseSx("(or " + m[2] + ")")
+		if t == nil || len(t.kids) < 3 || len(t.kids) > 6 {
+			continue
+		}
+		var cs []string
+		for _, k := range t.kids[1:] {
+			cs = append(cs, k.String())
+		}
+		ms = append(ms, merge{cs})
+	}
+	if timeout > 10 {
+		timeout = 10
+	}
+	solve := func(goal, tag string) bool {
+		q := *po
+		q.Goal = goal
+		pf := fmt.Sprintf("%s.%s.smt2", strings.TrimSuffix(file, ".smt2"), tag)
+		renderMu.Lock()
+		txt := q.script(false)
+		renderMu.Unlock()
+		os.WriteFile(pf, []byte(txt), 0o644)
+		for _, sp := range solvers {
+			rs, _, se := runSolver(sp, pf, timeout)
+			acct.Secs += se
+			if rs == "unsat" {
+				return true
+			}
+			if rs == "sat" {
+				return false
+			}
+		}
+		return false
+	}
+	// the part has the shape (=> ANTS G) or G
+	ants, g := "true", po.Goal
+	if t := parseSx(po.Goal); t != nil && t.head() == "=>" && len(t.kids) == 3 {
+		ants, g = t.kids[1].String(), t.kids[2].String()
+	}
+	for mi, m := range ms {
+		if !solve("(=> "+ants+" (or "+strings.Join(m.cases, " ")+"))", fmt.Sprintf("m%dcover", mi)) {
+			continue
+		}
+		ok := true
+		for ci, c := range m.cases {
+			if !solve("(=> (and "+ants+" "+c+") "+g+")", fmt.Sprintf("m%dcase%d", mi, ci)) {
+				ok = false
+				break
+			}
+		}
+		if ok {
+			return true
+		}
+	}
+	return false
 }
 
 // stripQuantified drops every assertion that contains a quantifier.
